@@ -684,7 +684,7 @@ def canonical(g):
 # what the AST content built by a production feeds downstream: a production that loses or alters content breaks those properties too
 # (a necessary condition of each: the declared attribute / field / signature has to reach the semantic layer unchanged)
 DOWNSTREAM = [
-    (r'parse_type_definition|TypeStatement|TypeField', ['C01', 'C02', 'C03', 'C17', 'C04', 'C06']),
+    (r'parse_type_definition|TypeStatement|TypeField', ['C01', 'C02', 'C03', 'C17', 'C04', 'C06', 'C15']),
     (r'grammar::Attribute|AttributePart|parse_attribute', ['C01', 'C02', 'C03', 'C05', 'C15', 'C16', 'C17']),
     (r'for grammar::Function>|for grammar::Argument>', ['C04', 'C05', 'C16']),
     (r'EnumStatement|parse_enum_definition', ['C08']),
